@@ -100,6 +100,11 @@ def memmap_safe(raw):
         return False
 
 
+# file-name stems containing the tokens the code itself uses for temporaries and suffixes
+TRICKY_STEMS = ["probe_tmp_test_g0_t0.imec0.ap", "x_tmp", "_tmp_tmp", "a.cbin_tmp.b", "rec.ch_tmp", "s.bin_temp.ap", "bin",
+                "cbin.ch", "meta", "x.meta.bin.cbin", "ch_tmp_tmp.lf", "r.bin", "q.cbin", "_tmp"]
+
+
 def _imports():
     import mtscomp
     import spikeglx
@@ -419,6 +424,69 @@ def options_case(tdir, rng, variant):
 
 
 # --------------------------------------------------------------------------
+# kind 6: the names compress_file uses (temporaries, published files), for stems and folders full of suffix tokens
+# --------------------------------------------------------------------------
+def names_case(tdir, stem, D, cs):
+    spikeglx, mtscomp = _imports()
+    d = Path(tdir) / "sess_tmp.cbin_tmp" / "probe.ch_tmp.bin_temp"
+    d.mkdir(parents=True)
+    n, nc = D.shape
+    b = d / (stem + ".bin")
+    D.tofile(b)
+    b.with_suffix(".meta").write_text(meta_text(nc, n, 1))
+    base = {b.name, b.with_suffix(".meta").name}
+    obs = {"problems": [], "name": b.name}
+    # run 1: the integrity check fails -> the temporaries stay behind under their names
+    real = mtscomp.check
+
+    def boom(*a, **k):
+        raise RuntimeError("injected")
+    mtscomp.check = boom
+    try:
+        try:
+            spikeglx.Reader(b).compress_file(keep_original=True, chunk_duration=cs / FS, n_threads=1)
+            obs["problems"].append("compress_file returned although the integrity check failed")
+        except RuntimeError:
+            pass
+    finally:
+        mtscomp.check = real
+    left = sorted({q.name for q in d.iterdir()} - base)
+    tmp_cbin = [x for x in left if x.endswith(".cbin_tmp")]
+    tmp_ch = [x for x in left if x.endswith(".ch_tmp")]
+    if len(left) != 2 or len(tmp_cbin) != 1 or len(tmp_ch) != 1:
+        obs["problems"].append("after a failed check the folder holds %s besides the source" % left)
+    # run 2: in place
+    sr = spikeglx.Reader(b)
+    out = sr.compress_file(keep_original=False, chunk_duration=cs / FS, n_threads=1)
+    now = sorted({q.name for q in d.iterdir()})
+    want = sorted([stem + ".cbin", stem + ".ch", stem + ".meta"])
+    pub_cbin = [x for x in now if x.endswith(".cbin")]
+    pub_ch = [x for x in now if x.endswith(".ch")]
+    if now != want:
+        obs["problems"].append("after compress_file(keep_original=False) of %s the folder holds %s, expected %s" % (
+            b.name, now, want))
+    if not _same_path(out, d / (stem + ".cbin")) or not _same_path(sr.file_bin, d / (stem + ".cbin")):
+        obs["problems"].append("compress_file returned %s / file_bin %s" % (out, sr.file_bin))
+    sr.close()
+    for entry in (d / (stem + ".cbin"), d / (stem + ".meta")):
+        try:
+            r = spikeglx.Reader(entry)
+            if r.file_bin is None or not r.is_open or tuple(r.shape) != (n, nc) or not np.array_equal(np.array(r._raw[0:n]), D):
+                obs["problems"].append("Reader(%s) does not open the published recording" % entry.name)
+            elif entry.suffix == ".cbin":
+                got = r.decompress_file(keep_original=False, n_threads=1)
+                if not _same_path(got, b) or b.read_bytes() != D.tobytes() or \
+                        sorted(q.name for q in d.iterdir()) != sorted(base):
+                    obs["problems"].append("in-place decompression of the published recording does not restore %s alone" % b.name)
+                r.compress_file(keep_original=False, chunk_duration=cs / FS, n_threads=1)
+            r.close()
+        except Exception as e:
+            obs["problems"].append("Reader(%s) of the published recording raised %s %r" % (entry.name, type(e).__name__, e))
+    obs["names"] = [(tmp_cbin or [""])[0], (tmp_ch or [""])[0], (pub_cbin or [""])[0], (pub_ch or [""])[0]]
+    return obs
+
+
+# --------------------------------------------------------------------------
 # a "world": reference streams for two recordings x two chunk configurations
 # --------------------------------------------------------------------------
 class World:
@@ -426,7 +494,7 @@ class World:
         """cs = {1: chunk size of config 1, 2: chunk size of config 2}."""
         spikeglx, mtscomp = _imports()
         self.nc, self.ns, self.cs = nc, ns, cs
-        self.stem = rng.choice(["rec_g0_t0.nidq", "x", "a.b.c", "x.imec0.ap"])
+        self.stem = rng.choice(["rec_g0_t0.nidq", "x", "a.b.c", "x.imec0.ap"] + TRICKY_STEMS[:6])
         self.orig, self.comp, self.hdr, self.offs, self.bounds, self.meta, self.D = {}, {}, {}, {}, {}, {}, {}
         ref = Path(root) / "ref"
         for r in (1, 2):
@@ -1444,7 +1512,7 @@ def _exercise(ctx, root):
             D = gen_data(rng, ns, nc, kind)
             d = root / ("codec%d" % i)
             d.mkdir()
-            stem = rng.choice(["rec_g0_t0.nidq", "x", "x.imec0.ap", "probe00.a.b.lf"])
+            stem = rng.choice(["rec_g0_t0.nidq", "x", "x.imec0.ap", "probe00.a.b.lf"] + TRICKY_STEMS)
             as_str = rng.random() < 0.4
             desc = {"kind": "codec", "nc": nc, "ns": ns, "chunk_samples": cs, "content": kind, "stem": stem,
                     "str_path": as_str, "data": [int(x) for x in D.reshape(-1)][:4000]}
@@ -1580,6 +1648,26 @@ def _exercise(ctx, root):
                                         "final": obs["final"]})
                 gc.collect()
             shutil.rmtree(wd, ignore_errors=True)
+        # ------------------------------------------------------------ names of temporaries and published files
+        for i, stem in enumerate(TRICKY_STEMS + ["x", "a.b.c.d", "rec_g0_t0.imec0.ap"]):
+            D = gen_data(rng, 7, 2, "full")
+            d = root / ("names%d" % i)
+            desc = {"kind": "names", "stem": stem, "source": stem + ".bin"}
+            obs = guarded(ctx, "compress_file on %s.bin raised" % stem, desc, {"kind": "names_exception"},
+                          lambda: names_case(d, stem, D, 3))
+            shutil.rmtree(d, ignore_errors=True)
+            if obs is None:
+                continue
+            for p in obs["problems"]:
+                ctx.fail(p, desc, {"kind": "names"})
+            inputs.append([6] + [ord(ch) for ch in obs["name"]])
+            out_ = []
+            for nm in obs["names"]:
+                out_ += [len(nm)] + [ord(ch) for ch in nm]
+            outputs.append(out_)
+            descr.append(desc)
+            dist["names"] = dist.get("names", 0) + 1
+            nontrivial.add(("names", stem))
         # ------------------------------------------------------------ meta-less flat binaries; option variants
         flat_shapes = [(384, 1), (384, 3), (385, 1), (385, 3), (385, 384), (3, 11), (1, 768), (2, 385), (5, 77), (3, 128)]
         if ctx.thorough():
@@ -1627,7 +1715,7 @@ def _exercise(ctx, root):
             iw, sort = rng.random() < 0.5, rng.random() < 0.7
             D = gen_data(rng, n, nc, rng.choice(["full", "small", "extremes"]))
             d = root / ("obj%d" % i)
-            stem = rng.choice(["rec_g0_t0.nidq", "x", "x.imec0.ap", "_spikeglx_ephysData_g0_t0.imec1.lf", "a.b.c.d"])
+            stem = rng.choice(["rec_g0_t0.nidq", "x", "x.imec0.ap", "_spikeglx_ephysData_g0_t0.imec1.lf", "a.b.c.d"] + TRICKY_STEMS)
             as_str = rng.random() < 0.4
             desc = {"kind": "object", "nc": nc, "n": n, "chunk_samples": cs, "meta_ns": ns0, "stem": stem, "str_path": as_str,
                     "ignore_warnings": iw, "sort": sort,
@@ -1706,6 +1794,15 @@ def replay(ctx, data):
             print("implementation: bounds", obs["bounds"], "problems", obs["problems"])
             ids = common.coq_mismatches(PROP, HEADER, [common.flat_cases_term(
                 0, enc_codec_in(inp["nc"], inp["ns"], inp["chunk_samples"], D), enc_codec_out(obs))])
+            print("kernel-evaluated model agrees with implementation:", not ids)
+            rc = 1 if (obs["problems"] or ids) else 0
+        elif inp.get("kind") == "names":
+            obs = names_case(root / "n", inp["stem"], gen_data(ctx.rng, 7, 2, "full"), 3)
+            print("implementation: names", obs["names"], "\n problems", obs["problems"])
+            out_ = []
+            for nm in obs["names"]:
+                out_ += [len(nm)] + [ord(ch) for ch in nm]
+            ids = common.coq_mismatches(PROP, HEADER, [common.flat_cases_term(0, [6] + [ord(ch) for ch in obs["name"]], out_)])
             print("kernel-evaluated model agrees with implementation:", not ids)
             rc = 1 if (obs["problems"] or ids) else 0
         elif inp.get("kind") == "flat":
